@@ -55,7 +55,9 @@ func init() {
 			kinds := p.leafKinds(c, "E1")
 			p.ruleA1A2(c, kinds, true, true, "Point")
 			p.ruleA3(c, pointKinds(kinds), true, true)
-			p.ruleA5(c, func(n string) bool { return n == "WithinPoint" || n == "IntersectsPoint" || n == "Contains" || n == "Intersects" })
+			p.ruleA5(c, func(n string) bool {
+				return n == "WithinPoint" || n == "IntersectsPoint" || n == "Contains" || n == "Intersects"
+			})
 			p.ruleMatrix(c, kinds, "Contains", 6)
 			p.ruleSegmentForwarders(c)
 			p.rulePolyHoles(c)
